@@ -37,4 +37,134 @@ theorem no_nil_put_compression (s0 : W) (h0 : FreshZ s0) (ops : List Op) (henv :
     Ev.poolPut none ∉ (run s0 ops).log := by
   first | exact PoolInvZ.no_nil_put_z .. | (apply PoolInvZ.no_nil_put_z <;> assumption)
 
+/-! ### non-vacuity -/
+section NonVacuity
+set_option linter.defProp false
+
+
+/-- a pooled server connection, write buffer 4096, no compression, with a transport fault script
+    (the 4th transport call fails) -/
+def witP : W := { newW true 4096 true false with faults := [(3, .fail 7)] }
+
+/-- witness for `pool_balance`, `no_nil_put`: the constructor state is `Fresh` (pool set, no buffer held) -/
+def witP_fresh : Fresh witP := ⟨rfl, rfl, rfl, rfl, rfl, rfl, rfl, rfl, by decide⟩
+
+/-- NextWriter(text); Write "Hel"; an invalid NextWriter(type 7) that abandons (implicitly closes) the
+    first writer; WriteMessage(binary) that hits the transport fault; WriteControl(ping); NextWriter on
+    the failed connection -/
+def witPOps : List Op :=
+  [.nextWriter 1 [] [], .write 0 [72, 101, 108] [] false, .nextWriter 7 [] [],
+   .writeMessage 2 [1, 2, 3] [] [] [] [], .writeControl 9 [104, 105] 0, .nextWriter 1 [] []]
+
+/-- non-vacuity of `pool_balance`: the hypothesis holds for a pooled server (buffer 4096) and the theorem
+    applies to a six-operation program with an abandoned writer, an invalid request and a transport fault -/
+example : Inv (run witP witPOps) := pool_balance witP witP_fresh witPOps
+
+/-- non-vacuity of `no_nil_put` on the same instance -/
+example : Ev.poolPut none ∉ (run witP witPOps).log := no_nil_put witP witP_fresh witPOps
+
+/-- … and that run (witness of `pool_balance`) is: get (miss), put 0, get 0, put 0 -/
+example : (run witP witPOps).log.filter (fun e => match e with | .poolGet _ => true | .poolPut _ => true | _ => false) =
+    [.poolGet none, .poolPut (some 0), .poolGet (some 0), .poolPut (some 0)] := by decide +kernel
+
+/-- a pooled client connection, write buffer 4096, permessage-deflate negotiated, two masking keys -/
+def witZ : W := { newW false 4096 true true with keys := [0x37, 0xfa, 0x21, 0x3d, 1, 2, 3, 4] }
+
+open WS.PoolInvZ in
+/-- witness for `pool_balance_compression`, `no_nil_put_compression`: the constructor state is `FreshZ` -/
+def witZ_fresh : FreshZ witZ := ⟨rfl, rfl, rfl, rfl, rfl, rfl, rfl, by decide⟩
+
+/-- deflate("Hello") with sync flush: f2 48 cd c9 c9 07 00 | 00 00 ff ff (RFC 7692 §7.2.3.1) -/
+def witHelloZ : Bytes := [0xf2, 0x48, 0xcd, 0xc9, 0xc9, 0x07, 0x00, 0x00, 0x00, 0xff, 0xff]
+/-- deflate(01 02 03) with sync flush -/
+def witBinZ : Bytes := [0x62, 0x64, 0x62, 0x06, 0x00, 0x00, 0x00, 0xff, 0xff]
+
+/-- NextWriter(text) — a flate writer; Write "Hello" (flate pushes f2 48 cd); WriteControl(ping "hi");
+    Close (flate flushes c9 c9 | 07 00; the environment's full stream is `witHelloZ`);
+    EnableWriteCompression(false); WriteMessage(text "Hello") uncompressed; EnableWriteCompression(true);
+    WriteMessage(binary 01 02 03) compressed to `witBinZ` -/
+def witZOps : List Op :=
+  [.nextWriter 1 [] [],
+   .write 0 [72, 101, 108, 108, 111] [[0xf2, 0x48, 0xcd]] false,
+   .writeControl 9 [104, 105] 0,
+   .close 0 [[0xc9, 0xc9], [0x07, 0x00]] witHelloZ,
+   .enableWriteCompression false,
+   .writeMessage 1 [72, 101, 108, 108, 111] [] [] [] [],
+   .enableWriteCompression true,
+   .writeMessage 2 [1, 2, 3] [] [] [[0x62, 0x64, 0x62, 0x06, 0x00]] witBinZ]
+
+/-- decidable equality of handles (local helper for `decide +kernel`) -/
+@[instance_reducible] def witDecEqHandle : DecidableEq Handle := fun a b =>
+  match a, b with
+  | .plain x, .plain y => if h : x = y then isTrue (h ▸ rfl) else isFalse (fun e => by cases e; exact h rfl)
+  | .plain _, .flate .. => isFalse (fun e => by cases e)
+  | .flate .., .plain _ => isFalse (fun e => by cases e)
+  | .flate a1 a2 a3 a4, .flate b1 b2 b3 b4 =>
+    if h : a1 = b1 ∧ a2 = b2 ∧ a3 = b3 ∧ a4 = b4 then isTrue (by obtain ⟨rfl, rfl, rfl, rfl⟩ := h; rfl)
+    else isFalse (fun e => by cases e; exact h ⟨rfl, rfl, rfl, rfl⟩)
+
+attribute [local instance] witDecEqHandle
+
+/-- the handle a successful NextWriter returned (helper for `decide +kernel`) -/
+def witOkVal : Except WErr Nat → Option Nat
+  | .ok h => some h
+  | .error _ => none
+
+/-- witness for `pool_balance_compression`, `no_nil_put_compression`: `EnvAdmissible` holds non-trivially —
+    the program closes two flate writers (handle 0 explicitly, handle 2 inside the last WriteMessage) and
+    both times the stream ends in 00 00 ff ff and its front is what went downstream -/
+def witZOps_env : WireWF.EnvAdmissible witZ witZOps := by
+  refine ⟨?_, trivial, trivial, ?_, trivial, ?_, trivial, ?_, trivial⟩
+  · intro h hh; cases hh
+  · intro i sent hh
+    have h' : (run witZ (witZOps.take 3)).handles[0]? = some (Handle.flate 0 true none [0xf2, 0x48, 0xcd]) := by decide +kernel
+    have h2 := h'.symm.trans hh
+    cases h2
+    exact ⟨by decide, by decide⟩
+  · refine ⟨?_, ?_⟩
+    · intro h hh
+      have h' : (run witZ (witZOps.take 5)).writer = none := by decide +kernel
+      exact absurd (h'.symm.trans hh) (by simp)
+    · intro h s1 heq
+      have e1 : witOkVal (nextWriter (run witZ (witZOps.take 5)) 1 [] []).1 = some 1 := by decide +kernel
+      have e2 : witOkVal (nextWriter (run witZ (witZOps.take 5)) 1 [] []).1 = some h := congrArg (fun p => witOkVal p.1) heq
+      have e3 : (nextWriter (run witZ (witZOps.take 5)) 1 [] []).2 = s1 := congrArg Prod.snd heq
+      obtain rfl : h = 1 := by
+        have := e2.symm.trans e1
+        cases this; rfl
+      subst e3
+      intro i sent hh
+      have h' : (hWrite (nextWriter (run witZ (witZOps.take 5)) 1 [] []).2 1 [72, 101, 108, 108, 111] []).2.handles[1]?
+          = some (Handle.plain 1) := by decide +kernel
+      have h2 := h'.symm.trans hh
+      cases h2
+  · refine ⟨?_, ?_⟩
+    · intro h hh
+      have h' : (run witZ (witZOps.take 7)).writer = none := by decide +kernel
+      exact absurd (h'.symm.trans hh) (by simp)
+    · intro h s1 heq
+      have e1 : witOkVal (nextWriter (run witZ (witZOps.take 7)) 2 [] []).1 = some 2 := by decide +kernel
+      have e2 : witOkVal (nextWriter (run witZ (witZOps.take 7)) 2 [] []).1 = some h := congrArg (fun p => witOkVal p.1) heq
+      have e3 : (nextWriter (run witZ (witZOps.take 7)) 2 [] []).2 = s1 := congrArg Prod.snd heq
+      obtain rfl : h = 2 := by
+        have := e2.symm.trans e1
+        cases this; rfl
+      subst e3
+      intro i sent hh
+      have h' : (hWrite (nextWriter (run witZ (witZOps.take 7)) 2 [] []).2 2 [1, 2, 3] [[0x62, 0x64, 0x62, 0x06, 0x00]]).2.handles[2]?
+          = some (Handle.flate 2 true none [0x62, 0x64, 0x62, 0x06, 0x00]) := by decide +kernel
+      have h2 := h'.symm.trans hh
+      cases h2
+      exact ⟨by decide, by decide⟩
+
+/-- non-vacuity of `pool_balance_compression`: all hypotheses hold for a pooled client (buffer 4096,
+    compression negotiated) running the eight-operation program `witZOps` that really closes flate
+    writers and toggles compression, and the theorem applies -/
+example : Inv (run witZ witZOps) := pool_balance_compression witZ witZ_fresh witZOps witZOps_env
+
+/-- non-vacuity of `no_nil_put_compression` on the same instance -/
+example : Ev.poolPut none ∉ (run witZ witZOps).log := no_nil_put_compression witZ witZ_fresh witZOps witZOps_env
+
+end NonVacuity
+
 end WS.Props.C20
